@@ -182,6 +182,37 @@ async fn fit_boundary(compression: bool, events: usize, slack: i64, attempts: us
     Ok(last)
 }
 
+/// C01 / U12w P2: [append, a 2-event transaction that rolls the segment over and whose SECOND event is rejected (out-of-range
+/// timestamp), append], close, reopen: every acknowledged event is still returned by event lookup and partition scan.
+async fn rejected_after_rollover() -> Result<Option<String>, String> {
+    let dir = tempfile::tempdir().map_err(|e| e.to_string())?;
+    let key = Uuid::from_u128(0x1234_5678_9abc_def0_1122_3344_5566_7788);
+    let hash = uuid_to_partition_hash(key);
+    let noise = |n: u64, len: usize| -> Vec<u8> { let mut x: u64 = 0x9E37_79B9_7F4A_7C15 ^ n; (0..len).map(|_| { x ^= x << 13; x ^= x >> 7; x ^= x << 17; (x >> 24) as u8 }).collect() };
+    let ev = |n: u64, len: usize, ts: u64| NewEvent { event_id: uuid_v7_with_partition_hash(hash), stream_id: StreamId::new("a").unwrap(), stream_version: ExpectedVersion::Any, event_name: "e".into(), timestamp: ts, metadata: vec![], payload: noise(n, len) };
+    let open = || { let mut b = DatabaseBuilder::new(); b.segment_size_bytes(128 * 1024).total_buckets(1).bucket_ids_from_range(0..1); b.open(dir.path()) };
+    let mut acked = vec![];
+    {
+        let db = open().map_err(|e| e.to_string())?;
+        let mut t1 = smallvec::SmallVec::<[NewEvent; 4]>::new(); t1.push(ev(1, 70 * 1024, 1)); acked.push(t1[0].event_id);
+        db.append_events(Transaction::new(key, 0, t1).unwrap()).await.map_err(|e| e.to_string())?;
+        let mut t2 = smallvec::SmallVec::<[NewEvent; 4]>::new(); t2.push(ev(2, 62 * 1024, 1)); t2.push(ev(3, 10, 1u64 << 63));
+        if db.append_events(Transaction::new(key, 0, t2).unwrap()).await.is_ok() { return Ok(None); } // not the rejected-transaction scenario
+        let mut t3 = smallvec::SmallVec::<[NewEvent; 4]>::new(); t3.push(ev(4, 100, 1)); acked.push(t3[0].event_id);
+        db.append_events(Transaction::new(key, 0, t3).unwrap()).await.map_err(|e| e.to_string())?;
+        db.shutdown().await;
+    }
+    let db = match open() { Ok(db) => db, Err(e) => return Ok(Some(format!("reopening failed: {e}"))) };
+    for (k, id) in acked.iter().enumerate() {
+        match db.read_event(0, *id).await { Ok(Some(e)) if e.partition_sequence == k as u64 => {}, other => return Ok(Some(format!("after reopen, lookup of acknowledged event #{k} returned {:?}", other.map(|o| o.map(|e| e.partition_sequence)).map_err(|e| e.to_string())))) }
+    }
+    let mut it = db.read_partition(0, 0, sierradb::IterDirection::Forward).await.map_err(|e| e.to_string())?;
+    let mut seqs = vec![];
+    loop { match it.next().await { Ok(Some(c)) => { for e in c.into_iter() { seqs.push(e.partition_sequence); } if seqs.len() > 20 { break; } } Ok(None) => break, Err(e) => return Ok(Some(format!("after reopen, the partition scan failed after sequences {seqs:?}: {e}"))) } }
+    if seqs != vec![0, 1] { return Ok(Some(format!("after reopen, the partition scan returned sequences {seqs:?}, acknowledged were [0, 1]"))); }
+    Ok(None)
+}
+
 fn txs_of(v: &Value) -> Vec<Vec<(String, String)>> {
     v.as_array().map(|a| a.iter().map(|t| t.as_array().map(|es| es.iter().map(|e| (e[0].as_str().unwrap_or("s").to_string(), e[1].as_str().unwrap_or("any").to_string())).collect()).unwrap_or_default()).collect()).unwrap_or_default()
 }
@@ -193,6 +224,11 @@ pub fn search(item: &str, seed: u64, _hint: &Value) -> Option<(Value, String)> {
     if item.contains("rollover") {
         if let Ok(Ok((first, second))) = guarded(|| block_on(rollover_ack_latency(1500))) {
             if second * 4 < first { return Some((json!({"kind": "rollover_ack", "sync_ms": 1500}), format!("with a 1500 ms sync interval the first append was acknowledged after {first} ms (it waited for the periodic fsync) but the append that rolled the segment over was acknowledged after {second} ms: it was released by the sealed segment's watermark before its own fsync"))); }
+        }
+    }
+    if item.contains("ack_handoff") || item.contains("rollover") {
+        if let Ok(Ok(Some(d))) = guarded(|| block_on(rejected_after_rollover())) {
+            return Some((json!({"kind": "rejected_after_rollover"}), format!("128 KiB segments: [70 KiB event; a 2-event transaction that rolls over and whose second event has timestamp 2^63 (rejected); a small event], close, reopen: {d}")));
         }
     }
     if item.contains("append_space") || item.contains("Writer::append") || item.contains("prepare_data") {
@@ -228,6 +264,9 @@ pub fn run(_item: &str, input: &Value) -> Option<String> {
             Ok(Ok((first, second))) if second * 4 < first => Some(format!("first append acknowledged after {first} ms (periodic fsync), the append that rolled the segment over after {second} ms: acknowledged before its fsync")),
             _ => None,
         };
+    }
+    if input["kind"].as_str() == Some("rejected_after_rollover") {
+        return match guarded(|| block_on(rejected_after_rollover())) { Ok(Ok(Some(d))) => Some(d), _ => None };
     }
     if input["kind"].as_str() == Some("fit_boundary") {
         return match guarded(|| block_on(fit_boundary(input["compression"].as_bool().unwrap_or(true), input["events"].as_u64().unwrap_or(1) as usize, input["slack"].as_i64().unwrap_or(0), 3))) {
